@@ -86,7 +86,7 @@ package emitter
 
 //@ func (e *Emitter) emitMartStatement
 //@   requires martStmt != nil && martStmt.Name != nil && len(martStmt.TokenItems) == len(martStmt.Items)
-//@   ensures [C14,C15:mart] MartPieces(piecesOf(result), martStmt)
+//@   ensures [C13,C14,C15:mart] MartPieces(piecesOf(result), martStmt)
 //@   loop 1
 //@     invariant len(sb.pieces) == 2 + $i && $i <= len(martStmt.Items)
 //@     invariant sb.pieces[0] == "\t.align 2\n"
